@@ -184,6 +184,7 @@ class ZooSDE(torch.nn.Module):
         mm = d if noise_type == "diagonal" else (1 if noise_type == "scalar" else m)
         self.G = torch.nn.Parameter(r(d, mm) * 0.7)
         self.stiff = float(stiff)
+        self.gquad = False
         self.n_f = 0
         self.n_g = 0
         self.crash_f = None
@@ -219,6 +220,10 @@ class ZooSDE(torch.nn.Module):
             raise SimCrash(f"diffusion evaluation {k}")
         t = torch.as_tensor(t, dtype=y.dtype)
         nt = self.noise_type
+        if self.gquad and nt == "diagonal":
+            return 0.3 + 0.25 * (1.0 - torch.cos(y))  # bounded diffusion with a critical point at y = 0
+        if self.gquad and nt == "scalar":
+            return (0.3 + 0.25 * (1.0 - torch.cos(y))).unsqueeze(-1)
         if nt == "diagonal":
             return 0.3 + 0.2 * torch.sin(y) * self.G.diagonal() + 0.05 * torch.cos(t)
         if nt == "additive":
@@ -229,8 +234,10 @@ class ZooSDE(torch.nn.Module):
 
 
 def make_sde(spec, dtype):
-    return ZooSDE(spec["kind"], spec["noise_type"], spec["sde_type"], spec["d"], spec["m"], DT[dtype], spec["seed"],
-                  spec.get("stiff", 1.0))
+    sde = ZooSDE(spec["kind"], spec["noise_type"], spec["sde_type"], spec["d"], spec["m"], DT[dtype], spec["seed"],
+                 spec.get("stiff", 1.0))
+    sde.gquad = bool(spec.get("gquad"))
+    return sde
 
 
 def gen_sde_spec(rng, solver, stiff_choices=(1.0,)):
@@ -239,10 +246,14 @@ def gen_sde_spec(rng, solver, stiff_choices=(1.0,)):
     m = d if nt == "diagonal" else (1 if nt == "scalar" else rng.choice([1, 2, 3]))
     return {"kind": rng.choice(["linear", "trig", "tanh", "stiff"]), "noise_type": nt, "sde_type": solver["sde_type"],
             "d": d, "m": m, "seed": rng.randrange(1 << 30), "stiff": rng.choice(list(stiff_choices)),
-            "batch": rng.choice([1, 2, 3])}
+            "batch": rng.choice([1, 2, 3]),
+            # now and then: a diffusion with a critical point, started exactly there
+            "gquad": nt in ("diagonal", "scalar") and rng.random() < 0.08, "y0_zero": rng.random() < 0.08}
 
 
 def make_y0(spec, dtype):
+    if spec.get("y0_zero"):
+        return torch.zeros((spec["batch"], spec["d"]), dtype=DT[dtype])
     g = torch.Generator().manual_seed(derive("y0", spec["seed"]) % (2 ** 62))
     return (torch.rand((spec["batch"], spec["d"]), generator=g, dtype=torch.float64) - 0.5).to(DT[dtype])
 
